@@ -76,10 +76,10 @@ func vFinite(ts []vType) []bool {
 				if t.nullableRoot {
 					break // null is a finite instance
 				}
-				switch f.kind {
-				case eRequired, eRequiredExplicit:
+				switch {
+				case f.kind == eRequiredExplicit || (f.kind == eRequired && !vOptionalByDefault):
 					ok = ok && fin[f.x]
-				case eChoice:
+				case f.kind == eChoice && !vOptionalByDefault:
 					ok = ok && (fin[f.x] || fin[f.y])
 				}
 			}
@@ -101,7 +101,7 @@ func vSelfRequiring(ts []vType, root int) bool {
 			return false // nothing is required below a nullable root
 		}
 		for _, f := range ts[i].fields {
-			if f.kind != eRequired && f.kind != eRequiredExplicit {
+			if f.kind != eRequiredExplicit && !(f.kind == eRequired && !vOptionalByDefault) {
 				continue
 			}
 			if f.x == root {
@@ -182,9 +182,11 @@ func VerifC06_TwoMembers() {
 	}
 
 	vNullableRootOfSecond = true
+	vOptionalByDefault = zzverif.Bool("optionalByDefault")
 	ts, root := vBuildProjectWith(nf)
 	vNullableRootOfSecond = false
 	vRecursionVerdict(ts, root)
+	vOptionalByDefault = false
 }
 
 // vNullableRootOfSecond: vBuildProjectWith lets the root object of the second
@@ -230,7 +232,7 @@ func vShortestSelfCycle(ts []vType, root int) int {
 				continue
 			}
 			for _, f := range ts[i].fields {
-				if f.kind != eRequired && f.kind != eRequiredExplicit {
+				if f.kind != eRequiredExplicit && !(f.kind == eRequired && !vOptionalByDefault) {
 					continue
 				}
 				if f.x == root {
@@ -311,17 +313,28 @@ func VerifC06_ChoiceShapes() {
 // registered. With linked, ONE schema object per type is created and every
 // type is registered in every schema (as a document processor does), so that
 // names met inside a type resolve in that type's own table as well.
+// vOptionalByDefault: the schemas of this path are built with
+// AreKeysOptionalByDefault - a member without an `optional` rule is optional,
+// only `optional: false` makes it mandatory.
+var vOptionalByDefault bool
+
+func vNewSchema(name, text string) *JSchema {
+	s := New(name, text)
+	s.AreKeysOptionalByDefault = vOptionalByDefault
+	return s
+}
+
 func vLinkProject(texts []string, linked bool) *JSchema {
 	if !linked {
-		root := New(vTypeName(0), texts[0])
+		root := vNewSchema(vTypeName(0), texts[0])
 		for i := range texts {
-			_ = root.AddType(vTypeName(i), New(vTypeName(i), texts[i]))
+			_ = root.AddType(vTypeName(i), vNewSchema(vTypeName(i), texts[i]))
 		}
 		return root
 	}
 	ss := make([]*JSchema, len(texts))
 	for i := range texts {
-		ss[i] = New(vTypeName(i), texts[i])
+		ss[i] = vNewSchema(vTypeName(i), texts[i])
 	}
 	for _, s := range ss {
 		for j := range ss {
